@@ -295,6 +295,24 @@ def selected_fields(
     )
 
 
+def _skip_unless_unevaluable(
+    node: Union[ast.Field, ast.InlineFragment, ast.FragmentSpread],
+    variables: Mapping[str, Any],
+) -> bool:
+    """
+    Look-ahead helpers must not raise out of a resolver: a ``@skip`` /
+    ``@include`` condition which cannot be evaluated (e.g. a nullable variable
+    with a default explicitly set to null) keeps the selection; the executor
+    reports the field error when it collects the selection set itself.
+    """
+    from ..exc import CoercionError
+
+    try:
+        return _skip_selection(node, variables)
+    except CoercionError:
+        return False
+
+
 def _selected_paths(
     selections: Sequence[ast.Selection],
     fragments: Mapping[str, ast.FragmentDefinition],
@@ -305,7 +323,12 @@ def _selected_paths(
 ) -> List[str]:
     fieldnames = []
 
-    collected = collect_fields_untyped(selections, fragments, variables)
+    collected = collect_fields_untyped(
+        selections,
+        fragments,
+        variables,
+        skip_selection=_skip_unless_unevaluable,
+    )
 
     for fields in collected.values():
         child_path = [*path, fields[0].name.value]
